@@ -107,6 +107,17 @@ class World:
                     await asyncio.sleep(0)
                 return await orig(user, password)
             um.authenticate = slow
+        if c.get("slow_user"):   # ... and one whose account lookup does: {"login": iterations, "*": default}
+            um = self.server.user_manager
+            orig_get = um.get_user
+            delays = dict(c["slow_user"])
+
+            async def slow_get(login):
+                import asyncio
+                for _ in range(int(delays.get(login, delays.get("*", 0)))):
+                    await asyncio.sleep(0)
+                return await orig_get(login)
+            um.get_user = slow_get
         self.populate(self.init_tree)
         self.loop.run_task(self.server.start(self.net.host, CTL_PORT))
         return self
